@@ -34,6 +34,8 @@ pub enum ClientOp {
     Vars { session: usize },
     /// fire-and-forget observer request
     Noise(Noise),
+    /// wait for the result of the nth program started with Run { wait: false }
+    WaitRun { nth: usize },
 }
 
 #[derive(Clone, Debug, PartialEq, Serialize, Deserialize)]
@@ -196,6 +198,16 @@ impl Client {
                     ClientOp::Noise(n) => {
                         self.noise(world, &n);
                         self.finish(Out::Skipped, steps);
+                        true
+                    }
+                    ClientOp::WaitRun { nth } => {
+                        match self.run_pids.get(nth).copied() {
+                            Some(pid) => match world.env.request_result(pid, None) {
+                                Ok(req) => self.state = State::WaitResult { req },
+                                Err(e) => self.finish(Out::EnvError(format!("{e}")), steps),
+                            },
+                            None => self.finish(Out::Skipped, steps),
+                        }
                         true
                     }
                 }
